@@ -190,9 +190,12 @@ func newValueSetFromStruct(typ reflect.Type) (*ValueSet, error) {
 	for typ.Kind() == reflect.Ptr {
 		typ = typ.Elem()
 		ptrCount++
-	}
-	if ptrCount > 1 {
-		return nil, fmt.Errorf("struct argument can at most be a single pointer")
+
+		// Check inside the loop: the counter is small and must not get the
+		// chance to wrap around.
+		if ptrCount > 1 {
+			return nil, fmt.Errorf("struct argument can at most be a single pointer")
+		}
 	}
 
 	// Verify our value is a struct
